@@ -53,3 +53,17 @@ Theorem C14_never_out_of_step : forall h,
   Forall (Forall (fun o => o <> Decoded false)) (history true st0 h).
 Proof. intros h. exact (never_out_of_step h st0 in_sync_st0). Qed.
 Print Assumptions C14_never_out_of_step.
+
+(* "... or refuses it with an error that is recognisable as the memory-limit error", at any later point of the stream: on every
+   history in which the library only ever fails for the memory limit, every refusal — the first one and every one a marked
+   sub-stream answers with later — is recognisable; marks holding a re-formatted error are refuted. *)
+Theorem C14_refusals_stay_recognisable : forall h,
+  Forall limit_failures h -> Forall (Forall recognisable) (mhistory true no_marks h).
+Proof. intros h Hh. exact (refusals_stay_recognisable h no_marks no_marks_only Hh). Qed.
+Print Assumptions C14_refusals_stay_recognisable.
+
+Example C14_reformatted_mark_refuted :
+  let h := [[(1, None); (2, None)]; [(1, Some true); (2, None)]; [(3, None); (2, None)]] in
+  mhistory false no_marks h = [[MDecoded; MDecoded]; [MRefused true; MUnread]; [MDecoded; MRefused false]] /\
+  mhistory true no_marks h = [[MDecoded; MDecoded]; [MRefused true; MUnread]; [MDecoded; MRefused true]].
+Proof. exact reformatted_mark_refuted. Qed.
